@@ -15,6 +15,7 @@ RULE = ('accepted lines of the C02 generator (Intel syntax) x presentation-only 
         'st vs st(0), and Intel <-> AT&T transliteration (through the reference printer, and directly written pairs, whose AT&T side is itself respelled: number base 0x/0X, spacing, register case; for ALU/mov/test/push/imul immediates at every width boundary incl. negative values, register and memory destinations of 8/16/32 bits). A case = (rewrite, base line, variant); non-trivial = the base line has >= 1 candidate and the rewrite changed the text.')
 RULE += ' Round 6: symbol-relative operands: N+sym[regs] against sym[regs+N], N[regs+M] against [regs+(N+M)]; the displacement-outside rewrite no longer fires on operands that already carry a symbol or an outer displacement.'
 RULE += ' Round 7: x87 arithmetic with st(0) as destination: one- and two-operand spellings in both syntaxes (six mnemonics x 8 registers).'
+RULE += " Round 8: 8-bit immediates of ten MMX/SSE instructions in unsigned, hexadecimal and two's-complement spelling, both syntaxes."
 ASSUMPTIONS = ['rewrites that change base/index roles ([eax+ebx] vs [ebx+eax]) are not applied (the statement exempts them)',
                'the AT&T transliteration is the reference\'s (GNU as + objdump -M att), not miasmX\'s']
 
